@@ -16,7 +16,7 @@ PLAN = {
 BUDGET = {"quick": 50, "thorough": 900}
 RULE = (
     "seeded acyclic dependency graphs (2-8 providers, depth <= 4, fan-out <= 3, shared sub-dependencies, sync providers run "
-    "through the executor seam and async providers with virtual delays, MessageDependency leaves), an actor using 1-3 of them "
+    "through the executor seam and async providers with virtual delays, MessageDependency parameters declared before or after the Depends parameters), an actor using 1-3 of them "
     "next to payload arguments (Basic and Pydantic converter), a sequence of 1-4 deliveries with Depends.override() calls in "
     "between (the new provider has a different sub-dependency set) and a set of providers that raise. A reference evaluator "
     "computes each provider's value from its sub-results. Oracle: the actor's keyword arguments == payload arguments + "
@@ -37,7 +37,7 @@ def gen(rng, broker, tier):
         # limit depth: node i may only depend on nodes within the next 4 levels
         subs = sorted(rng.sample(later, k)) if later else []
         nodes.append({"subs": subs, "kind": rng.choice(["async", "async", "sync"]), "delay_us": rng.choice([0, 0, 500, 20_000]),
-                      "msg": rng.random() < 0.2, "default": rng.random() < 0.2})
+                      "msg": rng.random() < 0.3, "msg_first": rng.random() < 0.5, "default": rng.random() < 0.2})
     roots = sorted(rng.sample(range(n), rng.randint(1, min(3, n))))
     deliveries = []
     for d in range(rng.randint(1, 4)):
@@ -85,6 +85,8 @@ async def _main(sim, sc, out):
 
     def make_provider(i, subs, kind, tag, with_msg, with_default):
         params = [f"d{j}" for j in subs] + (["msg"] if with_msg else []) + (["opt=7"] if with_default else [])
+        if with_msg and nodes[i].get("msg_first"):
+            params = ["msg"] + [f"d{j}" for j in subs] + (["opt=7"] if with_default else [])  # message dependency declared first
         pnames = [p.split("=")[0] for p in params]
         if kind == "async":
             async def body(kwargs):
